@@ -222,7 +222,10 @@ def r3_accessors(ctx):
         pats = [flat(show_pat(a["pat"])) for mm in find_all(l["init"], "Match") for a in mm["arms"]]
         some = [p for p in pats if p != "_"]
         wild_none = any(flat(show(a["body"])) == "None" for mm in find_all(l["init"], "Match") for a in mm["arms"] if a["pat"]["k"] == "PWild")
-        if show(base) != "keys" or meths[:2] != ["iter", "filter_map"] or len(some) != 1 or not re.match("^" + rx + "$", some[0]) or not wild_none:
+        guards = [flat(show(a["guard"])) for mm in find_all(l["init"], "Match") for a in mm["arms"] if a.get("guard") is not None]
+        if guards:
+            r.viol("R3:create_locale_type_inner#%s#guard" % name, "`%s` leaves out the keys for which `%s` does not hold: every key of that shape gets its accessor (an empty group too)" % (name, guards[0]), file=fn.file, line=l["line"])
+        elif show(base) != "keys" or meths[:2] != ["iter", "filter_map"] or len(some) != 1 or not re.match("^" + rx + "$", some[0]) or not wild_none:
             r.viol("R3:create_locale_type_inner#" + name, "`%s` is not `keys.iter().filter_map(<exactly its shape> => Some, _ => None)`: base %s, methods %s, patterns %s" % (name, show(base), meths, pats), file=fn.file, line=l["line"])
         else:
             r.inst("create_locale_type_inner#" + name, "keys.iter().filter_map over %s" % some[0])
@@ -350,6 +353,67 @@ def collector(ctx, r, rid):
         r.viol("%s:Warnings#kept" % rid, "of %d emitted warnings the collector hands on %s; lost: %s" % (len(ws), len(got[1]) if got[0] == "list" else absint.fmt(got)[:80], lost[:3]), file=WN, line=emit.line)
 
 
+PVF = "leptos_i18n_parser/src/parse_locales/parsed_value.rs"
+
+
+def r6_value_kinds(ctx):
+    """the serde visitor of a translation value, callback by callback (rules/absint.py): what kind of ParsedValue each JSON / YAML
+    kind becomes.  The key-set comparison sees a group only if it arrives as Subkeys - an empty `{}` included - and sees `null` as
+    the explicit default"""
+    from rules import absint
+    from rules.absint import AEval, C, CF, A, L, I, B as _B
+    r = Rule("C07.R6", "each kind of file value becomes its own kind of parsed value: a map is a sub-key group (also an empty one), null is the explicit default",
+             "`a key is reported missing / surplus by comparing the key sets`, `an explicit null silences the report`: a `{}` read as null is never compared "
+             "with the default locale's group (no missing keys, no sub-key mismatch); a null read as anything else is reported", floor=6)
+    ast = ctx.ast
+    absint.set_program(ast)
+    cbs = {f.name: f for f in ast.fns if f.file.endswith(PVF) and not f.is_test() and f.body is not None and "ParsedValueSeed" in (f.impl_self or "") and "Visitor" in (f.impl_trait or "")}
+    S = lambda x: ("str", x)  # noqa: E731
+
+    def seed(in_range):
+        return CF("ParsedValueSeed", top_locale_name=A("locale"), in_range=_B(in_range), key_path=A("key_path"), key=A("key"), foreign_keys_paths=A("fkp"))
+
+    def run1(name, arg, in_range=False, des=None):
+        ev = AEval(funcs={})
+        ev.opaque_paths = re.compile(r"Error::custom$|Error::invalid_type$|Error::invalid_value$|MapAccessDeserializer::new$|Unexpected::\w+$")
+        if des is not None:
+            ev.builtins["deserialize"] = lambda rv, a: des
+        v = ev.run_fn(cbs[name], [seed(in_range)] + ([arg] if arg is not None else []))
+        if isinstance(v, str):
+            raise absint.Unknown("%s (visitor callback %s)" % (v, name))
+        return v
+    empty = CF("Locale", name=A("key"), top_locale_name=A("locale"), keys=L(), strings=L(), top_locale_string_count=I(0))
+    full = CF("Locale", name=A("key"), top_locale_name=A("locale"), keys=L(absint.T(A("k"), A("v"))), strings=L(), top_locale_string_count=I(0))
+    table = [("visit_map", "a map with keys", A("map"), C("Ok", full), C("Ok", C("Subkeys", C("Some", full)))),
+             ("visit_map", "an empty map `{}`", A("map"), C("Ok", empty), C("Ok", C("Subkeys", C("Some", empty)))),
+             ("visit_map", "a map that fails to load", A("map"), C("Err", A("e")), C("Err", A("e"))),
+             ("visit_unit", "null", None, None, C("Ok", C("Default"))),
+             ("visit_bool", "true", _B(True), None, C("Ok", C("Literal", C("Bool", _B(True))))),
+             ("visit_i64", "-3", I(-3), None, C("Ok", C("Literal", C("Signed", I(-3))))),
+             ("visit_u64", "7", I(7), None, C("Ok", C("Literal", C("Unsigned", I(7))))),
+             ("visit_u64", "0", I(0), None, C("Ok", C("Literal", C("Unsigned", I(0)))))]
+    try:
+        for name, label, arg, des, want in table:
+            if name not in cbs:
+                r.missing("ParsedValueSeed::" + name)
+                continue
+            got = run1(name, arg, des=des)
+            if got == want:
+                r.inst("ParsedValueSeed::%s(%s)" % (name, label), absint.fmt(want)[:100])
+            else:
+                r.viol("R6:ParsedValueSeed::%s#%s" % (name, label.split()[0] if name != "visit_map" else label), "%s is read as %s, expected %s" % (label, absint.fmt(got)[:160], absint.fmt(want)[:160]), file=PVF, line=cbs[name].line)
+        for name in ("visit_map", "visit_unit"):
+            if name in cbs:
+                got = run1(name, A("map") if name == "visit_map" else None, in_range=True, des=C("Ok", full))
+                if got[0] == "ctor" and got[1] == "Err":
+                    r.inst("ParsedValueSeed::%s in a range branch" % name, "rejected")
+                else:
+                    r.viol("R6:ParsedValueSeed::%s#in-range" % name, "inside a range branch it gives %s, expected an error" % absint.fmt(got)[:120], file=PVF, line=cbs[name].line)
+    except absint.Unknown as u:
+        r.viol("R6:undecided", "the value visitor cannot be interpreted on the current code (%s): not decided on this tree (fail closed)" % str(u)[:300], file=PVF)
+    return r
+
+
 def run(ctx):
     rules = [r1_table(ctx)]
     cfgs = ["main"] if ctx.tier == "quick" else ["main", "bare"]
@@ -364,6 +428,7 @@ def run(ctx):
     rules.append(r2)
     rules.append(r3_accessors(ctx))
     rules.append(r4_warnings(ctx))
+    rules.append(r6_value_kinds(ctx))
     # `an inherits entry silences the missing report`: whether a locale has an entry is read from the table the configuration
     # loader hands on - the clause of C19.R0 that every valid entry (also one naming the default locale) is kept
     from rules import c19
@@ -373,6 +438,18 @@ def run(ctx):
                         "`an explicit null or an inherits entry silences the missing report`: an entry dropped while the configuration is "
                         "loaded (e.g. one that names the default locale) turns its locale back into one that reports every absent key",
                         only=r"inherits", floor=1))
+    # `the default locale's keys define the set`: the key set is that of the first locale of the loaded list - the clause of C19.R0
+    # that the default locale comes first (also when `locales` did not list it)
+    rules.append(borrow(k0, "C07.R7", "the default locale is the first of the loaded list, the one whose keys define the set",
+                        "`keys are compared with the default locale's`: the comparison takes the first locale as the reference; a default "
+                        "locale appended last makes another locale's keys the reference and the default one gets the diagnostics",
+                        only=r"ConfigFile::new", floor=1))
+    # `an explicit null silences the report` for a whole group: the null group is expanded to one null per key of the default
+    # group - nested groups included - before it is compared (ParsedValue::merge evaluated, shared with C03.R2)
+    from rules import c03
+    rules.append(borrow(c03.r2_recording(ctx, ctx.mir("main")), "C07.R8", "a null (or absent) group is compared as a group whose every key is null",
+                        "`an explicit null silences the missing report`: if the stand-in for a null group lacks some of the default group's keys "
+                        "(e.g. its nested groups) those are reported missing although the whole group was explicitly defaulted", only=r"ParsedValue::merge#subkeys", floor=2))
     return rules
 
 
